@@ -140,6 +140,7 @@ def run(ck):
                          "xmp_play_buffer harness aborted (rc=%d): %s" % (rc, sig))
             continue
         stats["skipped_modules"] += out.count("\nskip ")
+        stats["reloads_after_invert_loop"] = stats.get("reloads_after_invert_loop", 0) + out.count("\nreload invloop")
         cases = parse_cases(out)
         if not cases:
             continue
